@@ -9,8 +9,10 @@ package oracle
 // prescribes for the body of a value of a given type:
 //   - a container body is a concatenation of well-formed tag-encoded values
 //     (uvarint tag, 0 = null, else length+1, length within the body);
-//   - record: exactly one element per field; union: exactly two elements, a
-//     non-null tag in range and the member value; map: an even number of
+//   - record: exactly one element per field and nothing after the last one;
+//     union: exactly two elements, a non-null tag in range (counted varint,
+//     any byte length, wrapping like the code base decodes it) and the member
+//     value; map: an even number of
 //     elements, keys strictly increasing (bytes of tag+body); set: elements
 //     strictly increasing (bytes of tag+body); enum: selector in range;
 //   - primitives of fixed size have that size (bool 1, float16/32/64 2/4/8,
@@ -98,6 +100,24 @@ func split(body []byte) ([]elem, string) {
 	return out, ""
 }
 
+// first parses the first tag-encoded element of body and returns it with its
+// encoded length.
+func first(body []byte) (elem, int, string) {
+	tag, n := binary.Uvarint(body)
+	if n <= 0 {
+		return elem{}, 0, fmt.Sprintf("bad tag uvarint (%d) with %d bytes left", n, len(body))
+	}
+	if tag == 0 {
+		return elem{nil, body[:n]}, n, ""
+	}
+	l := tag - 1
+	if l > uint64(len(body)-n) {
+		return elem{}, 0, fmt.Sprintf("element length %d exceeds the %d bytes left in the container", l, len(body)-n)
+	}
+	end := n + int(l)
+	return elem{body[n:end:end], body[:end]}, end, ""
+}
+
 const maxDepth = 10000
 
 func (w *walker) check(typ zed.Type, body []byte, inSet bool, path string, depth int) *Issue {
@@ -121,17 +141,23 @@ func (w *walker) check(typ zed.Type, body []byte, inSet bool, path string, depth
 	}
 	switch typ := typ.(type) {
 	case *zed.TypeRecord:
-		elems, msg := split(body)
-		if msg != "" {
-			return bad("framing", "record body: %s", msg)
-		}
-		if len(elems) != len(typ.Fields) {
-			return bad("record-arity", "record body has %d elements, type has %d fields", len(elems), len(typ.Fields))
-		}
+		// one element per field, then nothing
+		rest := body
 		for i, f := range typ.Fields {
-			if is := w.check(f.Type, elems[i].body, inSet, fmt.Sprintf("%s.%d", path, i), depth+1); is != nil {
+			if len(rest) == 0 {
+				return bad("record-arity", "record body has %d elements, type has %d fields", i, len(typ.Fields))
+			}
+			e, n, msg := first(rest)
+			if msg != "" {
+				return bad("framing", "record body, field %d: %s", i, msg)
+			}
+			rest = rest[n:]
+			if is := w.check(f.Type, e.body, inSet, fmt.Sprintf("%s.%d", path, i), depth+1); is != nil {
 				return is
 			}
+		}
+		if len(rest) != 0 {
+			return bad("record-trailing", "%d bytes follow the last of the %d fields in the record body", len(rest), len(typ.Fields))
 		}
 		return nil
 	case *zed.TypeArray:
@@ -203,18 +229,12 @@ func (w *walker) check(typ zed.Type, body []byte, inSet bool, path string, depth
 		if tb == nil {
 			return bad("union-tag-null", "union tag is null")
 		}
-		if len(tb) > 8 {
-			return bad("union-tag", "union tag is %d bytes long", len(tb))
-		}
 		tag := countedVarint(tb)
 		if tag < 0 || tag >= int64(len(typ.Types)) {
 			return bad("union-tag", "union tag %d out of range for %d member types", tag, len(typ.Types))
 		}
 		return w.check(typ.Types[tag], elems[1].body, inSet, fmt.Sprintf("%s(%d)", path, tag), depth+1)
 	case *zed.TypeEnum:
-		if len(body) > 8 {
-			return bad("enum-selector", "enum selector is %d bytes long", len(body))
-		}
 		if sel := countedUvarint(body); sel >= uint64(len(typ.Symbols)) {
 			return bad("enum-selector", "enum selector %d out of range for %d symbols", sel, len(typ.Symbols))
 		}
@@ -440,6 +460,21 @@ func TypeLeaves(v zed.Value) [][]byte {
 	return out
 }
 
+// splitPrefix returns the well-framed elements at the start of body (all of
+// them when the body is well-framed).
+func splitPrefix(body []byte) []elem {
+	var out []elem
+	for len(body) > 0 {
+		e, n, msg := first(body)
+		if msg != "" {
+			break
+		}
+		out = append(out, e)
+		body = body[n:]
+	}
+	return out
+}
+
 func typeLeaves(typ zed.Type, body []byte, depth int, out *[][]byte) {
 	if depth > maxDepth || typ == nil || body == nil {
 		return
@@ -450,36 +485,24 @@ func typeLeaves(typ zed.Type, body []byte, depth int, out *[][]byte) {
 	case *zed.TypeError:
 		typeLeaves(typ.Type, body, depth+1, out)
 	case *zed.TypeRecord:
-		elems, msg := split(body)
-		if msg != "" {
-			return
-		}
+		elems := splitPrefix(body)
 		for i, e := range elems {
 			if i < len(typ.Fields) {
 				typeLeaves(typ.Fields[i].Type, e.body, depth+1, out)
 			}
 		}
 	case *zed.TypeArray:
-		elems, msg := split(body)
-		if msg != "" {
-			return
-		}
+		elems := splitPrefix(body)
 		for _, e := range elems {
 			typeLeaves(typ.Type, e.body, depth+1, out)
 		}
 	case *zed.TypeSet:
-		elems, msg := split(body)
-		if msg != "" {
-			return
-		}
+		elems := splitPrefix(body)
 		for _, e := range elems {
 			typeLeaves(typ.Type, e.body, depth+1, out)
 		}
 	case *zed.TypeMap:
-		elems, msg := split(body)
-		if msg != "" {
-			return
-		}
+		elems := splitPrefix(body)
 		for i, e := range elems {
 			if i%2 == 0 {
 				typeLeaves(typ.KeyType, e.body, depth+1, out)
@@ -488,8 +511,8 @@ func typeLeaves(typ zed.Type, body []byte, depth int, out *[][]byte) {
 			}
 		}
 	case *zed.TypeUnion:
-		elems, msg := split(body)
-		if msg != "" || len(elems) < 2 || elems[0].body == nil || len(elems[0].body) > 8 {
+		elems := splitPrefix(body)
+		if len(elems) < 2 || elems[0].body == nil || len(elems[0].body) > 8 {
 			return
 		}
 		tag := countedVarint(elems[0].body)
